@@ -63,7 +63,7 @@ pub fn fold_case() -> BoxedStrategy<FoldCase> {
         prop_oneof![6 => Just(0usize), 6 => 0usize..CONTENT_TYPES.len(), 1 => Just(usize::MAX)],
         any::<bool>(),
         any::<bool>(),
-        prop_oneof![4 => Just(None), 1 => body_bytes(1).prop_map(|b| Some(B(b))), 1 => Just(Some(B(b"a=%zz".to_vec()))), 1 => Just(Some(B(b"a=%C3%28&\xc3\x28=1".to_vec()))), 1 => Just(Some(B(b"\xEF\xBB\xBFa=1".to_vec())))],
+        prop_oneof![4 => Just(None), 1 => body_bytes(1).prop_map(|b| Some(B(b))), 1 => Just(Some(B(b"a=%zz".to_vec()))), 1 => Just(Some(B(b"a=1\n".to_vec()))), 1 => Just(Some(B(b"a=1&b=2\r\n".to_vec()))), 1 => Just(Some(B(b"\na=1".to_vec()))), 1 => Just(Some(B(b"a=%C3%28&\xc3\x28=1".to_vec()))), 1 => Just(Some(B(b"\xEF\xBB\xBFa=1".to_vec())))],
         prop_oneof![4 => Just(None), 1 => any::<u16>().prop_map(Some)],
         any::<u8>(),
     )
